@@ -78,6 +78,32 @@ theorem C18_budget (c : Cpu) (n8 : UInt32) (h : n8.toNat * 125 * c.slice.duratio
     rw [Nat.mod_eq_of_lt h1, Nat.mod_eq_of_lt h]
     exact ha x 0 d
 
+/-- clocks off that grid: `Spec.budgetExact m e d` is f x 1000 x d for f = m * 2^(e-150) (the value of a positive
+    normal single), split into whole T-states and a proper fraction r/den - no rounding anywhere -/
+theorem C18_budget_exact (m e d : Nat) :
+    (Spec.budgetExact m e d).2.1 < (Spec.budgetExact m e d).2.2 ∧
+    (if e ≥ 150 then (Spec.budgetExact m e d).1 = m * 1000 * d * 2 ^ (e - 150)
+     else (Spec.budgetExact m e d).1 * 2 ^ (150 - e) + (Spec.budgetExact m e d).2.1 = m * 1000 * d) := by
+  unfold Spec.budgetExact
+  by_cases h : e ≥ 150
+  · simp [h]
+  · simp only [h, ↓reduceIte]
+    have hp : 0 < 2 ^ (150 - e) := Nat.two_pow_pos _
+    exact ⟨Nat.mod_lt _ hp, by rw [Nat.mul_comm]; exact Nat.div_add_mod _ _⟩
+
+/-- and on the grid (f = n8/8 MHz exactly) it is the value of `C18_budget`, with nothing left over -/
+theorem C18_budget_on_grid (m e n8 d : Nat) (he : e < 150) (hg : m * 8 = n8 * 2 ^ (150 - e)) :
+    (Spec.budgetExact m e d).1 = n8 * 125 * d ∧ (Spec.budgetExact m e d).2.1 = 0 := by
+  have h : ¬ e ≥ 150 := by omega
+  have hp : 0 < 2 ^ (150 - e) := Nat.two_pow_pos _
+  have e1 : m * 1000 * d = n8 * 125 * d * 2 ^ (150 - e) := by
+    have : m * 1000 * d = m * 8 * (125 * d) := by
+      rw [Nat.mul_assoc m 8, ← Nat.mul_assoc 8 125 d, Nat.mul_assoc m 1000 d]
+    rw [this, hg, Nat.mul_assoc, Nat.mul_comm (2 ^ (150 - e)), ← Nat.mul_assoc, ← Nat.mul_assoc]
+  unfold Spec.budgetExact
+  simp only [h, ↓reduceIte, e1]
+  exact ⟨Nat.mul_div_cancel _ hp, Nat.mul_mod_left _ _⟩
+
 /-! ### histories of timed steps -/
 
 /-- the accounting the property describes: T-states accumulated since the previous request -/
